@@ -131,6 +131,7 @@ fn main() {
             let outdir = args[5].as_str();
             let thorough = tier == "thorough";
             std::env::set_var("PFV_TIER", tier);
+            watch::init(id, tier, seed, outdir);
             quiet_panics();
             let t0 = Instant::now();
             let out = match id {
@@ -317,6 +318,9 @@ mod mon_bytes_run {
                     "levels": st.levels, "abstract_states": st.abstract_states, "max_depth": st.max_depth}));
             }
         }
+        // W5: recipe-steered object-heavy and alias-heavy pickles (typed opcodes, DUP aliases)
+        let st = crate::mon_trace::steered_block(if thorough { 40_000 } else { 4_000 }, seed, true, &check_c01);
+        acc.merge(st);
         for h in big_handles {
             match h.join() {
                 Ok(a) => acc.merge(a),
